@@ -232,22 +232,22 @@ impl System for GrammarSys {
                 let out = sc.feed_msg(&cc(self.ch, *c, *val));
                 let (g2, want) = self.gen_cc(&s.g, s.now, *c, *val).expect("harness: action was generated");
                 self.compare(&format!("feed(CC#{})", c), &out, &want, &s.g, &mut v);
-                Step { next: Some(GState { sc, now: s.now, g: g2 }), obs: if want.is_empty() && out[0].is_none() { 0 } else { h64(&out) }, violations: v }
+                Step { strict: false, next: Some(GState { sc, now: s.now, g: g2 }), obs: if want.is_empty() && out[0].is_none() { 0 } else { h64(&out) }, violations: v }
             }
             GAct::Other(i) => {
                 let (st, d1, d2) = self.others[*i as usize];
                 let out = sc.feed_msg(&raw(st, d1, d2));
                 self.compare("feed(non-contributing)", &out, &[], &s.g, &mut v);
-                Step { next: Some(GState { sc, now: s.now, g: s.g }), obs: 0, violations: v }
+                Step { strict: false, next: Some(GState { sc, now: s.now, g: s.g }), obs: 0, violations: v }
             }
             GAct::Poll => {
                 let out = sc.poll_ch(self.ch);
                 let (g2, want) = self.gen_poll(&s.g, s.now).expect("harness: poll was generated");
                 self.compare("poll", &[out], &want, &s.g, &mut v);
-                Step { next: Some(GState { sc, now: s.now, g: g2 }), obs: out.map_or(0, |t| h64(&("poll", t))), violations: v }
+                Step { strict: false, next: Some(GState { sc, now: s.now, g: g2 }), obs: out.map_or(0, |t| h64(&("poll", t))), violations: v }
             }
-            GAct::Tick => Step { next: Some(GState { sc, now: s.now + 1, g: s.g }), obs: 0, violations: v },
-            GAct::Pause(i) => Step { next: Some(GState { sc, now: s.now + self.pauses[*i as usize], g: s.g }), obs: 0, violations: v },
+            GAct::Tick => Step { strict: false, next: Some(GState { sc, now: s.now + 1, g: s.g }), obs: 0, violations: v },
+            GAct::Pause(i) => Step { strict: false, next: Some(GState { sc, now: s.now + self.pauses[*i as usize], g: s.g }), obs: 0, violations: v },
         }
     }
     fn key(&self, s: &GState) -> (u128, G) {
@@ -372,14 +372,14 @@ impl System for GrammarPair {
     }
     fn step(&self, s: &PairState, a: &PairAct) -> Step<PairState> {
         match a {
-            PairAct::Tick => Step { next: Some(PairState { sc: s.sc, now: s.now + 1, ga: s.ga, gb: s.gb }), obs: 0, violations: Vec::new() },
+            PairAct::Tick => Step { strict: false, next: Some(PairState { sc: s.sc, now: s.now + 1, ga: s.ga, gb: s.gb }), obs: 0, violations: Vec::new() },
             PairAct::A(x) => {
                 let r = self.a.step(&GState { sc: s.sc, now: s.now, g: s.ga }, x);
-                Step { next: r.next.map(|n| PairState { sc: n.sc, now: n.now, ga: n.g, gb: s.gb }), obs: r.obs, violations: r.violations }
+                Step { strict: false, next: r.next.map(|n| PairState { sc: n.sc, now: n.now, ga: n.g, gb: s.gb }), obs: r.obs, violations: r.violations }
             }
             PairAct::B(x) => {
                 let r = self.b.step(&GState { sc: s.sc, now: s.now, g: s.gb }, x);
-                Step { next: r.next.map(|n| PairState { sc: n.sc, now: n.now, ga: s.ga, gb: n.g }), obs: r.obs, violations: r.violations }
+                Step { strict: false, next: r.next.map(|n| PairState { sc: n.sc, now: n.now, ga: s.ga, gb: n.g }), obs: r.obs, violations: r.violations }
             }
         }
     }
@@ -521,7 +521,10 @@ pub fn run_c12(chk: &Check, tier: Tier) {
             let out = xs::explore(&sys, &Limits { restoration_check: false, ..Default::default() });
             engine::record(chk, &sys, &out, None);
             let msgs = message_set(c, &boundary14(), &boundary14(), &boundary7());
-            out.nodes.par_iter().enumerate().for_each(|(si, node)| {
+            if out.nodes.len() > 50_000 {
+                chk.not_exhaustive(&format!("C12 part two: {} prior states, encode-feed-poll run from the 50000 shallowest only", out.nodes.len()));
+            }
+            out.nodes[..out.nodes.len().min(50_000)].par_iter().enumerate().for_each(|(si, node)| {
                 let st = &node.state;
                 let flush = match (st.ob.owed, st.ob.number()) {
                     (Some((b, _)), Some(num)) => Some([c as u32, num, b as u32, st.ob.reg as u32, 0, 0]),
